@@ -93,7 +93,7 @@ def dt_case(draw):
         dd = draw(st.sampled_from([1, -1, 7, 28, 30, 31, 365, -30]))
         w = S.clamp_u(target - dd * 86400 * US)
         a = {"days": dd}
-    return {"zone": z, "w": w, "amt": a}
+    return {"zone": z, "w": w, "amt": a, "prov": draw(st.sampled_from(["construct", "convert", "convert-add"]))}
 
 
 def expect_value(tag, got, zone, mw, start):
@@ -115,6 +115,16 @@ def expect_value(tag, got, zone, mw, start):
         f"{tag}: result differs from the calendar model (landing wall time {kind})",
         start=start, got=got.isoformat(), expected=exp.isoformat(), model_wall=mw.isoformat())
     return kind
+
+
+def build_start(wall, z, u, prov):
+    """the same start value obtained in different ways: the result of calendar arithmetic must not depend on the provenance
+    (constructed values carry fold=1, converted ones fold=0)"""
+    if prov == "construct":
+        return pendulum.datetime(*T.fields(wall), tz=z)
+    if prov == "convert":
+        return pendulum.instance(T.render(u, "UTC")).in_timezone(z)
+    return pendulum.instance(T.render(u - 3600 * US, z)).add(hours=1)
 
 
 def sig(r):
@@ -140,7 +150,7 @@ class DateTimeArith(Sub):
             k0, eu0 = T.expected_construct(w, z, 1)
             if k0 != "unique":
                 raise Skip("start wall time not unique")
-            x = pendulum.datetime(*T.fields(wall), tz=z)
+            x = build_start(wall, z, eu0, case.get("prov", "construct"))
         else:
             x = pendulum.naive(*T.fields(wall))
         req(T.fields(x) == T.fields(wall), "harness: start not built as given", got=x.isoformat())
@@ -187,7 +197,7 @@ def dur_case(draw):
     else:
         a = draw(amounts)
         canon = False
-    return {"zone": z, "w": w, "amt": a, "canonical": canon}
+    return {"zone": z, "w": w, "amt": a, "canonical": canon, "prov": draw(st.sampled_from(["construct", "convert", "convert-add"]))}
 
 
 class DurationOps(Sub):
@@ -204,9 +214,10 @@ class DurationOps(Sub):
         z, w, a = case["zone"], case["w"], case["amt"]
         wall = T.wall_from_us(w)
         if z is not None:
-            if T.expected_construct(w, z, 1)[0] != "unique":
+            k0_, eu0_ = T.expected_construct(w, z, 1)
+            if k0_ != "unique":
                 raise Skip("start wall time not unique")
-            x = pendulum.datetime(*T.fields(wall), tz=z)
+            x = build_start(wall, z, eu0_, case.get("prov", "construct"))
         else:
             x = pendulum.naive(*T.fields(wall))
         try:
